@@ -14,7 +14,8 @@ def run_profile(ctx, mode, rich):
         bindir = fb.result()
     if r["n"] == 0:
         raise ToolError("TLC emitted no moves")
-    mism, summary, _ = run_bin(bindir, "profile", ["replay", r["behaviours"], ctx.seed, "--mode", mode], timeout=1200)
+    # also under the build with overflow checks and debug assertions: an accessor must not panic at the i64 extremes there either
+    mism, summary, _ = vlib.run_bin_checked_too("profile", ["replay", r["behaviours"], ctx.seed, "--mode", mode], timeout=1200)
     ctx.evaluations += summary.get("queries", 0)
     ctx.traces += summary.get("behaviours", 0)
     ctx.extra["replay_summary"] = summary
@@ -38,7 +39,7 @@ def replay_profile(pid, v):
     os.makedirs(out, exist_ok=True)
     bp = os.path.join(out, "replay_one.ndjson")
     open(bp, "w").write(json.dumps(v["case"]) + "\n")
-    bindir = build_harness(["profile"])
+    bindir = build_harness(["profile"], checked=bool(v.get("mismatch", {}).get("build")))
     mism, summary, _ = run_bin(bindir, "profile", ["replay", bp, v.get("seed", 1), "--mode", v.get("mode", "all")])
     return mism[0] if mism else None
 
